@@ -82,12 +82,13 @@ class Group:
 
 def gen_groups(r, n):
     G = []
-    periods = [360.0, 2.0, 1.0, 8.0, 0.5, 6.0]
+    periods = [360.0, 2.0, 1.0, 8.0, 0.5, 6.0, 2.0 ** -20, 2.0 ** 20]      # also very small and very large periods (scales 1e-6 .. 1e6)
     for k in range(n):
         kind = r.choice(["SC", "PER", "PER", "V3", "UV", "UV", "Q", "Q", "VEC", "DV", "DV", "DV"])
+        sc = r.choice([1.0, 1.0, 2.0 ** -26, 2.0 ** 26])       # scale of the data for the flat types (1e-8 .. 1e8)
         if kind == "SC":
-            g = Group("SC", "", [V.dyadic(r, -50, 50)], [V.dyadic(r, -50, 50)])
-            g.add_fd(r, 2.0 ** -6)
+            g = Group("SC", "", [sc * V.dyadic(r, -50, 50)], [sc * V.dyadic(r, -50, 50)])
+            g.add_fd(r, sc * 2.0 ** -6)
         elif kind == "PER":
             P = r.choice(periods); c = V.dyadic(r, -4, 4, bits=2)
             m = r.random()
@@ -104,8 +105,8 @@ def gen_groups(r, n):
                 g.add_fd(r, 2.0 ** -9 * P)
             g.add_inv([x1 + r.randint(-3, 3) * P], [x2 + r.randint(-3, 3) * P])
         elif kind == "V3":
-            g = Group("V3", "", [V.dyadic(r, -9, 9) for _ in range(3)], [V.dyadic(r, -9, 9) for _ in range(3)])
-            g.add_fd(r, 2.0 ** -6)
+            g = Group("V3", "", [sc * V.dyadic(r, -9, 9) for _ in range(3)], [sc * V.dyadic(r, -9, 9) for _ in range(3)])
+            g.add_fd(r, sc * 2.0 ** -6)
         elif kind == "UV":
             g = Group("UV", "", unit(r, 3), unit(r, 3), manifold=True)
             if sum(a * b for a, b in zip(g.x1, g.x2)) > -0.98:      # near the antipode the third derivative makes the central difference too coarse
@@ -120,8 +121,8 @@ def gen_groups(r, n):
             g.add_inv([-a for a in q1], q2)
         elif kind == "VEC":
             nn = r.randint(1, 6)
-            g = Group("VEC", "%d " % nn, [V.dyadic(r, -9, 9) for _ in range(nn)], [V.dyadic(r, -9, 9) for _ in range(nn)])
-            g.add_fd(r, 2.0 ** -6)
+            g = Group("VEC", "%d " % nn, [sc * V.dyadic(r, -9, 9) for _ in range(nn)], [sc * V.dyadic(r, -9, 9) for _ in range(nn)])
+            g.add_fd(r, sc * 2.0 ** -6)
         else:
             pbc = r.randint(0, 1); hc = r.randint(0, 1)
             L = [r.choice([4.0, 8.0, 16.0]) for _ in range(3)]
@@ -370,7 +371,7 @@ SUM_PER360 = ("dihedral", "eulerPhi", "polarPhi", "spinAngle")
 
 
 class SGroup:
-    def __init__(self, r, directed=None):
+    def __init__(self, r, directed=None, modify=False):
         """directed = (position of the odd component in CREATION order: 0 first / 1 middle / 2 last, kind of oddity 0..3): a 3-component
         sum of period-360 components with exactly that one odd component (every run has all 12 combinations)"""
         n = r.choice([1, 2, 3, 3, 3, 4, 4, 5]) if directed is None else 3
@@ -411,17 +412,37 @@ class SGroup:
                     comps[order0[pos]][2] = r.choice([2.0, 0.5, -2.0])
                 else:
                     comps[order0[pos]][3] = 2
+        if modify:
+            # mostly period-360 components with at least one distanceZ, so that a run-time change of its period or of a coefficient flips the decision
+            n = r.choice([2, 3, 3, 4])
+            comps = [[r.choice(SUM_PER360), 0.0, r.choice([1.0, -1.0]), 1, r.choice([0.0, 90.0, -180.0])] for _ in range(n)]
+            comps[r.randrange(n)] = ["distanceZ", r.choice([360.0, 360.0, 50.0, 0.0]), r.choice([1.0, -1.0]), 1, r.choice([0.0, 90.0])]
+            if r.random() < 0.3:
+                comps[r.randrange(n)][2] = 2.0
         r.shuffle(comps)
         self.comps = comps
-        # expected decision, recomputed independently: creation order = stable sort by keyword
+        self.mod = None
         order = sorted(range(n), key=lambda i: SUM_KW.index(comps[i][0]))
+        # wrapAround is only given to (and kept by) a component that is periodic when it is created
+        wc0 = [c[4] if (c[0] in SUM_PER360 or (c[0] == "distanceZ" and c[1] != 0.0)) else 0.0 for c in comps]
+        if modify:
+            # modifycvcs on one component (index in creation order): a distanceZ gets a new period, any component a new coefficient
+            jc = r.randrange(n); cj = comps[order[jc]]
+            Pn = r.choice([360.0, 360.0, 50.0, 10.0]) if cj[0] == "distanceZ" and r.random() < 0.8 else 0.0
+            cn = r.choice([1.0, -1.0, 1.0, -1.0, 2.0])
+            self.mod = (jc, Pn, cn)
+            comps = [list(c) for c in comps]            # the expectation below is computed on the MODIFIED components
+            comps[order[jc]][2] = cn
+            if Pn:
+                comps[order[jc]][1] = Pn
+        # expected decision, recomputed independently: creation order = stable sort by keyword
         def per(c):
             return 360.0 if c[0] in SUM_PER360 else (c[1] if c[0] == "distanceZ" and c[1] != 0.0 else None)
         first = comps[order[0]]
         P = per(first)
         ok = P is not None and all(per(c) == P and abs(abs(c[2]) - 1.0) <= 1e-10 and c[3] == 1 for c in comps)
         self.P = P if ok else None
-        self.c = first[4] if ok else 0.0
+        self.c = wc0[order[0]] if ok else 0.0
         x2 = V.dyadic(r, -3, 3, bits=8) * 360.0
         m = r.random()
         if m < 0.5:
@@ -434,10 +455,13 @@ class SGroup:
         self.lines = [self.ln(x1, x2, x1), self.ln(x2, x1, x2), self.ln(x1, x1, x1)]
 
     def ln(self, a, b, w):
-        return "SUM %d %s %s %s %s" % (len(self.comps), " ".join("%s %s %s %d %s" % (c[0], hx(c[1]), hx(c[2]), c[3], hx(c[4])) for c in self.comps), hx(a), hx(b), hx(w))
+        head = "%d %s" % (len(self.comps), " ".join("%s %s %s %d %s" % (c[0], hx(c[1]), hx(c[2]), c[3], hx(c[4])) for c in self.comps))
+        if self.mod:
+            return "SUMM %s %d %s %s %s %s %s" % (head, self.mod[0], hx(self.mod[1]), hx(self.mod[2]), hx(a), hx(b), hx(w))
+        return "SUM %s %s %s %s" % (head, hx(a), hx(b), hx(w))
 
     def desc(self):
-        return " + ".join("%s%s%s%s" % ("" if c[2] == 1.0 else "%g*" % c[2], c[0], "{period %g}" % c[1] if c[1] else "", "^%d" % c[3] if c[3] != 1 else "") for c in self.comps)
+        return ("" if not self.mod else "[after modifycvcs of component %d in creation order: %scomponentCoeff %g] " % (self.mod[0], "period %g, " % self.mod[1] if self.mod[1] else "", self.mod[2])) + " + ".join("%s%s%s%s" % ("" if c[2] == 1.0 else "%g*" % c[2], c[0], "{period %g}" % c[1] if c[1] else "", "^%d" % c[3] if c[3] != 1 else "") for c in self.comps)
 
 
 def oracle_sgroup(g, impl, run):
@@ -529,6 +553,8 @@ class HGroup:
             x = [V.dyadic(r, -50, 50)]; xc = [V.dyadic(r, -50, 50)]
         elif self.cls == "unit":
             x, xc = unit(r, 3), unit(r, 3)
+            if r.random() < 0.15:
+                xc = [-a for a in x]        # a restraint centred exactly opposite to the value: the force must stay finite
         elif self.cls == "quat":
             x, xc = unit(r, 4), unit(r, 4)
         else:
@@ -576,6 +602,9 @@ def oracle_hgroup(g, impl, run):
         return
     E, F = outs[0][0], outs[0][1:]
     what = "harmonic restraint (k=%r, width=%r) on %s%s centred at %r, value %r" % (g.k, g.w, g.kind, " (wrapAround %r)" % g.c if g.P else "", g.xc, g.x)
+    if not all(math.isfinite(t) for t in outs[0]):
+        run.violation("restraint:%s:finite" % sigk, "%s: energy %r, force %r are not finite" % (what, E, F), rep)
+        return
     want = 0.5 * g.k / (g.w * g.w) * py_dist2(g.cls, g.P, g.x, g.xc)
     if not close(E, want, 1e-8):
         run.violation("restraint:%s:energy" % sigk, "%s: energy %r, but 0.5 k/w^2 times the squared distance of the variable's metric is %r" % (what, E, want), rep)
@@ -619,6 +648,74 @@ def gen_consumers(r, n):
                 # the same walls and value replaced by periodic images (marked: compared with the line before)
                 L.append("HW %s %s %s %s %s %s IMG" % (hx(P), hx(c), " ".join(map(hx, vals)), hx(lo + r.randint(-1, 1) * P), hx(up + r.randint(-1, 1) * P), hx(x + r.randint(-2, 2) * P)))
     return L
+
+
+def gen_hills(r, n):
+    """one metadynamics hill (ML) / one OPES kernel (OK) evaluated at a value, half of them across the periodic boundary or at an
+    equivalent quaternion; each followed by the same case with value and centre replaced by equivalent ones (marked IMG)"""
+    L = []
+    for _ in range(n):
+        W = r.choice([1.0, 0.5, 2.0]); m = r.random()
+        if m < 0.55:
+            P = r.choice([360.0, 8.0, 25.0]); c = r.choice([0.0, P / 2, -P / 4])
+            sg = r.choice([0.03125, 0.0625, 0.125]) * P
+            if r.random() < 0.6:
+                xc = c + P / 2 - V.dyadic(r, 0, 0.0625, bits=8) * P; x = c - P / 2 + V.dyadic(r, 0, 0.0625, bits=8) * P
+            else:
+                xc = V.dyadic(r, -1, 1, bits=8) * P; x = xc + V.dyadic(r, -0.45, 0.45, bits=8) * P
+            x2, xc2 = x + r.randint(-2, 2) * P, xc + r.randint(-2, 2) * P
+            if r.random() < 0.6:
+                kind = "distanceZ:%r" % P
+                L.append("ML %s %s 1 %s %s %s %s" % (kind, hx(c), hx(W), hx(sg), hx(x), hx(xc)))
+                L.append("ML %s %s 1 %s %s %s %s IMG" % (kind, hx(c), hx(W), hx(sg), hx(x2), hx(xc2)))
+            else:
+                cut2 = r.choice([16.0, 36.0]); vac = math.exp(-0.5 * cut2)
+                d = x - xc; d -= math.floor(d / P + 0.5) * P
+                if abs((d / sg) ** 2 - cut2) < 0.05 * cut2:
+                    continue        # too close to the kernel cut-off: which side is taken depends on rounding
+                L.append("OK %s %s %s %s %s %s %s %s" % (hx(P), hx(c), hx(W), hx(xc), hx(sg), hx(cut2), hx(vac), hx(x)))
+                L.append("OK %s %s %s %s %s %s %s %s IMG" % (hx(P), hx(c), hx(W), hx(xc2), hx(sg), hx(cut2), hx(vac), hx(x2)))
+        elif m < 0.8:
+            q, qc = unit(r, 4), unit(r, 4); sg = r.choice([0.25, 0.5, 1.0])
+            L.append("ML orientation 0x0p+0 4 %s %s %s %s" % (hx(W), hx(sg), " ".join(map(hx, q)), " ".join(map(hx, qc))))
+            flip = r.random() < 0.5
+            L.append("ML orientation 0x0p+0 4 %s %s %s %s IMG" % (hx(W), hx(sg), " ".join(map(hx, [-a for a in q] if flip else q)), " ".join(map(hx, qc if flip else [-a for a in qc]))))
+        else:
+            a, b = unit(r, 3), unit(r, 3); sg = r.choice([0.25, 0.5, 1.0])
+            L.append("ML distanceDir 0x0p+0 3 %s %s %s %s" % (hx(W), hx(sg), " ".join(map(hx, a)), " ".join(map(hx, b))))
+    return L
+
+
+def oracle_hill(line, out, prev):
+    w = line.split(); o = parse(out)
+    img = w[-1] == "IMG"
+    if img:
+        w = w[:-1]
+    if o is None:
+        return "no numeric result (%s)" % out
+    if w[0] == "ML":
+        n = int(w[3]); W, sg = float.fromhex(w[4]), float.fromhex(w[5])
+        v = [float.fromhex(t) for t in w[6:]]; x, c = v[:n], v[n:]
+        kind = w[1]
+        cls, P = ("periodic", float(kind.split(":")[1])) if ":" in kind else (("quat", None) if n == 4 else ("unit", None))
+        sq = py_dist2(cls, P, x, c) / (sg * sg)
+        want = 0.0 if sq > 23.0 else W * math.exp(-0.5 * sq)
+        if abs(sq - 23.0) > 1e-6 and not close(o[0], want, 1e-8):
+            return "metadynamics hill (weight %r, width %r) on %s centred at %r evaluated at %r: energy %r, expected %r from the variable's distance" % (W, sg, kind, c, x, o[0], want)
+        if not all(math.isfinite(t) for t in o):
+            return "metadynamics hill on %s: energy/force %r not finite" % (kind, o)
+    else:
+        P, c, h, kc, sg, cut2, vac, x = [float.fromhex(t) for t in w[1:9]]
+        d = x - kc; d -= math.floor(d / P + 0.5) * P
+        n2 = (d / sg) ** 2
+        want = 0.0 if n2 >= cut2 else h * (math.exp(-0.5 * n2) - vac)
+        if not close(o[0], want, 1e-8) or not close(o[1], want, 1e-8):
+            return "OPES kernel (height %r, centre %r, sigma %r) on a variable of period %r evaluated at %r: %r / %r, expected %r from the closest image" % (h, kc, sg, P, x, o[0], o[1], want)
+    if img and prev is not None:
+        po = parse(prev[1])
+        if po and not close(po[0], o[0], 1e-8):
+            return "the value of a hill / kernel changes from %r to %r when value and centre are replaced by equivalent ones (%s vs %s)" % (po[0], o[0], prev[0], line)
+    return None
 
 
 def oracle_consumer(line, out, prev):
@@ -697,7 +794,7 @@ def gen_misc(r, n):
         kind = r.choice(["WRAP", "WRAP", "ISC", "IV3", "IUV", "IVEC", "IQ", "IQ", "ACUV", "ACQ", "INN", "AR", "AR", "ERR", "MR", "MR"])
         lam = r.choice([0.0, 1.0, 0.5, 0.25, V.dyadic(r, 0, 1, bits=6)])
         if kind == "WRAP":
-            P = r.choice([360.0, 2.0, 1.0, 8.0, 0.5, 6.0]); c = V.dyadic(r, -4, 4, bits=2)
+            P = r.choice([360.0, 2.0, 1.0, 8.0, 0.5, 6.0, 2.0 ** -20, 2.0 ** 20]); c = V.dyadic(r, -4, 4, bits=2)
             m = r.random()
             x = c + P / 2 * r.choice([-1, 1]) + r.randint(-2, 2) * P if m < 0.3 else V.dyadic(r, -4, 4, bits=8) * P
             L.append("WRAP %s %s %s" % (hx(P), hx(c), hx(x)))
@@ -914,9 +1011,9 @@ def check(run):
                        "and histories on one periodic variable object (modifycvcs changes of period/wrapAround interleaved with colvar::wrap, colvar::dist2 and wrap-then-dist2 calls). "
                        "distinct = distinct base line; non-trivial = arguments differ")
     run.assumptions += ["theorems are about the R instance of the model; the tie runs the float instance and compares with relative tolerance 1e-9 (acos, sqrt) and exactly for dyadic cases",
-                        "the model is of the code after the fix: commits of C18 (fix-C18-3: metric of sums of components with different periodicities; fix-C18: dist2_rgrad, wrap of spinAngle/eulerPhi/eulerPsi, periodic scripted distance, q/-q interpolation NaN)",
+                        "the model is of the code after the fix: commits of C18 (fix-C18-6: null gradient at opposite unit vectors, periodicity after modifycvcs; fix-C18-3: metric of sums of components with different periodicities; fix-C18: dist2_rgrad, wrap of spinAngle/eulerPhi/eulerPsi, periodic scripted distance, q/-q interpolation NaN)",
                         "NaN is outside the real-number model: the 0/0 of interpolating q and -q at 1/2 is seen by the oracle and the float tie only"]
-    groups = gen_groups(r, 500 if quick else 20000)
+    groups = gen_groups(r, 460 if quick else 20000)
     misc = gen_misc(r, 250 if quick else 8000)
     misc += gen_obj(r, 150 if quick else 3000)
     cgroups = [CGroup(r) for _ in range(350 if quick else 15000)]
@@ -928,9 +1025,10 @@ def check(run):
     for i, u in enumerate(pool):
         for v in (u, [-t for t in u], [math.nextafter(t, 2.0) for t in u], [math.nextafter(t, -2.0) for t in u], pool[(i * 7 + 3) % len(pool)], pool[(i * 13 + 5) % len(pool)]):
             uvpairs.append(fmt("UV", "", u, v))
-    hgroups = [HGroup(r) for _ in range(180 if quick else 6000)]
-    cons = gen_consumers(r, 120 if quick else 4000)
-    sgroups = [SGroup(r, (pos, how)) for pos in range(3) for how in range(4)] + [SGroup(r) for _ in range(150 if quick else 5000)]
+    hgroups = [HGroup(r) for _ in range(150 if quick else 6000)]
+    cons = gen_consumers(r, 100 if quick else 4000)
+    hills = gen_hills(r, 45 if quick else 2000)
+    sgroups = [SGroup(r, (pos, how)) for pos in range(3) for how in range(4)] + [SGroup(r) for _ in range(110 if quick else 5000)] + [SGroup(r, modify=True) for _ in range(50 if quick else 1500)]
     lines = []
     for g in groups + cgroups + omgroups + tgroups + sgroups + hgroups:
         g.off = len(lines)
@@ -939,6 +1037,8 @@ def check(run):
     lines += uvpairs
     coff = len(lines)
     lines += cons
+    hloff = len(lines)
+    lines += hills
     moff = len(lines)
     lines += misc
     if os.environ.get("C18_DUMP_LINES"):
@@ -1017,7 +1117,8 @@ def check(run):
             fdv = (p[0] - m[0]) / (2 * h)
             an = sum(a * b for a, b in zip(grad, e))
             tol = 1e-5 if g.manifold else 1e-8
-            if not (abs(fdv - an) <= tol * max(1.0, abs(fdv), abs(an))):
+            # flat types: relative to the data scale (the central difference of a quadratic is exact up to rounding)
+            if not (abs(fdv - an) <= tol * max(1.0 if (g.manifold or g.kind in ("PER", "DV")) else h, abs(fdv), abs(an))):
                 run.violation("grad:%s:fd" % sigk,
                               "reported gradient along direction %s is %r but the finite difference of dist2 is %r for %s" % (e, an, fdv, g.lines[0]), rep)
     for g in cgroups:
@@ -1036,6 +1137,14 @@ def check(run):
         if bad:
             run.violation("consumer:" + l.split()[0], bad, {"kind": "unit", "lines": [l] if prev is None else [prev[0], l], "impl": [impl[coff + i]]})
         prev = (l, impl[coff + i])
+    prev = None
+    for i, l in enumerate(hills):
+        run.count(l, True)
+        run.dist("hill:" + l.split()[0])
+        bad = oracle_hill(l, impl[hloff + i], prev)
+        if bad:
+            run.violation("hill:" + l.split()[0], bad, {"kind": "unit", "lines": [l] if prev is None else [prev[0], l], "impl": [impl[hloff + i]]})
+        prev = (l, impl[hloff + i])
     for g in sgroups:
         run.count(g.lines[0], g.x1 != g.x2)
         run.dist("sum:n=%d:%s" % (len(g.comps), "periodic" if g.P is not None else "plain"))
@@ -1048,10 +1157,7 @@ def check(run):
         run.count(l, True)
         run.dist("uv-finite")
         o = parse(impl[uvoff + i])
-        wv = [float.fromhex(t) for t in l.split()[1:]]
-        antipodal = sum(a * b for a, b in zip(wv[:3], wv[3:])) < -1 + 1e-12      # the documented singular geometry of the gradient
-        if o is None or len(o) != 4 or not math.isfinite(o[0]) or not (-1e-12 <= o[0] <= math.pi ** 2 * (1 + 1e-12)) or \
-           (not antipodal and not all(math.isfinite(t) for t in o)):
+        if o is None or len(o) != 4 or not all(math.isfinite(t) for t in o) or not (-1e-12 <= o[0] <= math.pi ** 2 * (1 + 1e-12)):
             run.violation("metric:UV:finite", "dist2 / gradient between the unit vectors of %s is not finite or outside [0, pi^2]: %s" % (l, impl[uvoff + i]),
                           {"kind": "unit", "lines": [l], "impl": [impl[uvoff + i]]})
     for g in omgroups:
